@@ -213,6 +213,38 @@ pub fn run_token<B: Backend>(acc: &mut Acc, c: &TokCase, filter: Option<&MutId>)
                     }
                 }
             }
+            // text-level edits of the HEADER of the genuine token: characters inserted at every position
+            // of the header (after the version, before the purpose, inside either), header parts repeated
+            {
+                let text = model::assemble(&format!("{}.{purpose}.", B::VER.v()), &b_ok.payload, &b_ok.footer);
+                let hlen = B::VER.v().len() + 1 + purpose.len() + 1;
+                let mut variants: Vec<String> = Vec::new();
+                for at in 0..=hlen {
+                    for ins in ["x", "c", "0", ".", ".json", "-beta", "\u{e9}", " "] {
+                        variants.push(format!("{}{ins}{}", &text[..at], &text[at..]));
+                    }
+                }
+                let dots: Vec<usize> = text.match_indices('.').map(|(i, _)| i).take(2).collect();
+                if dots.len() == 2 {
+                    variants.push(format!("{}{}{}", &text[..=dots[1]], &text[dots[0] + 1..=dots[1]], &text[dots[1] + 1..])); // v4.local.local.<p>
+                    variants.push(format!("{}{}", &text[..=dots[0]], text)); // v4.v4.local.<p>
+                }
+                for (vi, s2) in variants.iter().enumerate() {
+                    let id = MutId { class: "header-text-edit".into(), pos: vi as u32, arg: 0 };
+                    if !want(&id) {
+                        continue;
+                    }
+                    acc.eval();
+                    acc.class("mutant:header-text-edit");
+                    acc.nt(hash_of(&(c, &id)));
+                    trace_take();
+                    let r = s2.parse::<SealedToken<V<B>, $P, Probe, Vec<u8>>>().and_then(|t| t.unseal(&$unsealkey, &b_ok.assertion, &ProbeValidator { accept: true }));
+                    let t = trace_take();
+                    if !t.is_empty() || r.is_ok() {
+                        acc.fail(Fail::new(format!("C12/{name}/{purpose}/header-text-edit/decoder-or-validator-ran"), format!("the genuine token with its header edited ({:.24}...) reached {t:?} (result ok: {})", s2, r.is_ok())), rc(&id));
+                    }
+                }
+            }
             for (id, k) in $keyvars {
                 if !want(&id) {
                     continue;
